@@ -425,7 +425,7 @@ for _g in ("gen_all", "gen_capture", "gen_simple", "gen_simple_no_promote", "gen
     K(E2E[-1], ["C01", "C06", "C19"], "movegen::verif_kani_b::e2e_small_%s" % _g,
       ["movegen::legal::%s" % _g, "movegen::semilegal::%s" % _g, "movegen::semilegal::%s_into" % _g, "movegen::UnsafeMoveList::push", "ArrayVec::retain"],
       "for every valid position with the two kings and at most one more man, and an arbitrary witness move w: legal::%s returns w exactly once iff w is legal by the rules and in that generator's class (real macro-generated glue, real ArrayVec)" % _g,
-      bounded="positions with at most 3 men (the unbounded statement is the composition of C01/gen/*, C01/gen/dispatch, C01/legal/*)", timeout=3600, mem_gb=24, mem_est=8, tier="thorough" if _g != "gen_all" else "quick")
+      bounded="positions with at most 3 men (the unbounded statement is the composition of C01/gen/*, C01/gen/dispatch, C01/legal/*)", timeout=1400, mem_gb=24, mem_est=12, tier="thorough")
 
 K("C17/styled/empty-chain", ["C17"], CH + "c17_styled_list_empty_chain", ["<StyledList as Display>::fmt", "<UciList as Display>::fmt", "BaseMoveChain::styled", "BaseMoveChain::uci"],
   "for the chain without moves and every number policy (incl. all 65536 custom numbers), move style, status policy and stored outcome: the styled text is exactly the status token of the STORED outcome (or nothing when hidden); the UCI list is empty", timeout=2400)
@@ -435,7 +435,7 @@ K("C17/lists/fixed-game", ["C17"], CH + "c17_lists_fixed_game", ["<StyledList as
 
 K("C07/has-legal-moves/small-boards", ["C07"], "movegen::verif_kani_b::c07_has_legal_moves_small_boards", ["movegen::has_legal_moves", "Board::has_legal_moves"],
   "for every valid position with at most three men: has_legal_moves() == the legal move list is non-empty (real glue: ErrOnFirst, LegalFilter, side dispatch)",
-  bounded="positions with at most 3 men", assumes=["C01/legal-gen/end-to-end-small/gen_all"], timeout=5400, mem_gb=24, mem_est=8)
+  bounded="positions with at most 3 men", assumes=["C01/legal-gen/end-to-end-small/gen_all"], timeout=1400, mem_gb=24, mem_est=12, tier="thorough")
 N("C19/capacity-witnesses", ["C19"], "movegen::verif_kani_b::n19_capacity_and_known_high_mobility_positions", ["movegen::MoveList", "movegen::semilegal::gen_all_into"],
   "NOT a proof of A-CAP: MoveList capacity is the documented 256 and is not exceeded by the highest-mobility positions known (218 legal in a reachable position; 242 semilegal with 15 promoted queens), evaluated on the real generator through the safe Vec sink")
 
